@@ -37,7 +37,13 @@ def alphabet():
   queryops = ["FULLY_CONNECTED", "ADD"]
   cfgalgs = [("srq", "minmax"), ("drq", "minmax"), ("bad", "minmax"), ("dflt", "minmax"), ("f16", "fcast"), ("skip", "minmax"),
              ("dflt", "noq"), ("srq", "noq")]
-  return dict(cfgs=cfgs, regexes=regexes, scopes=scopes, opsels=opsels, queryops=queryops, cfgalgs=cfgalgs)
+  lists = [
+      [("r1", "*", ("srq", "minmax"))],
+      [("r2", "FULLY_CONNECTED", ("drq", "minmax")), ("r2", "FULLY_CONNECTED", ("srq", "minmax")), ("r3", "ADD", ("srq", "minmax"))],   # same op twice: replaced in place
+      [("r1", "FULLY_CONNECTED", ("srq", "minmax")), ("r2", "ADD", ("drq", "minmax")), ("r3", "FULLY_CONNECTED", ("drq", "minmax"))],   # second rule refused: prefix stays
+      [("r2", "FULLY_CONNECTED", ("srq", "minmax")), ("r2", "*", ("drq", "minmax")), ("r2", "ADD", ("srq", "minmax"))],                 # '*' resets, a specific rule follows
+  ]
+  return dict(cfgs=cfgs, regexes=regexes, scopes=scopes, opsels=opsels, queryops=queryops, cfgalgs=cfgalgs, lists=lists)
 
 
 def cfg_obj(A, cid):
@@ -77,6 +83,7 @@ def tla_constants(A, max_len, fixes):
       Matches="[p \\in Regexes \\X Scopes |-> p \\in %s]" % tlc.tla_set(["<<%s, %s>>" % (q(r), q(s)) for (r, s), v in sorted(matches.items()) if v]),
       Supported="[p \\in CfgAlgs \\X QueryOps |-> p \\in %s]" % tlc.tla_set(["<<%s, %s>>" % (ca(c), q(o)) for (c, o), v in sorted(supported.items()) if v]),
       HasWeightCfg="[c \\in %s |-> c \\in %s]" % (tlc.tla_str_set(sorted(A["cfgs"])), tlc.tla_str_set(sorted(c for c, v in hasw.items() if v))),
+      Lists="<<" + ", ".join("<<" + ", ".join("<<%s, %s, %s>>" % (q(r), q(o), ca(c)) for r, o, c in L) + ">>" for L in A.get("lists", [])) + ">>",
       ScopePairs=tlc.tla_set(["<<%s, %s>>" % (q(a), q(b)) for a, b in A.get("scope_pairs", [])]),
       MaxLen=str(max_len), Fixes=tlc.tla_str_set(fixes))
   return consts, dict(matches=matches, supported=supported)
@@ -97,6 +104,25 @@ class Impl:
 
   def fresh(self):
     return self.rm_mod.RecipeManager()
+
+  def load(self, rm, i):
+    """load_quantization_recipe with list i (1-based) in exported (dict) form."""
+    rules = []
+    for r, o, (c, a) in self.A["lists"][i - 1]:
+      cfg = self.A["cfgs"][c] or self.Q.OpQuantizationConfig()
+      rules.append({"regex": self.A["regexes"][r], "operation": o, "algorithm_key": ALG[a], "op_config": json.loads(json.dumps(cfg.to_dict()))})
+    try:
+      rm.load_quantization_recipe(rules)
+      return "ok"
+    except ValueError:
+      return "refused"
+    except KeyError:
+      return "keyerror"
+
+  def step(self, rm, letter):
+    if letter[0] == "load":
+      return self.load(rm, letter[1])
+    return self.add(rm, (letter[0], letter[1], tuple(letter[2])))
 
   def add(self, rm, letter):
     r, o, (c, a) = letter
